@@ -15,6 +15,7 @@ import (
 	"io"
 	"os"
 	"runtime"
+	"sort"
 	"strings"
 	"sync"
 	"time"
@@ -357,6 +358,41 @@ func sweepFeed(r *hx.Run, f *feed, rnd *hx.Rand, cfg hx.Config) {
 			}
 		}
 	}
+	// a lost span: everything from a separator up to a later closing bracket
+	// or tag start is gone, so that closers arrive early and the rest of the
+	// document follows the end of a (smaller) well-formed value
+	if t.wrapper == "" && t.loop != "zip" {
+		var seps, closers []int
+		for pos, c := range f.spool {
+			switch c {
+			case ',':
+				seps = append(seps, pos)
+			case '}', ']':
+				closers = append(closers, pos)
+			case '<':
+				if pos+1 < m && f.spool[pos+1] == '/' {
+					closers = append(closers, pos)
+				} else {
+					seps = append(seps, pos)
+				}
+			}
+		}
+		for i := 0; i < cfg.N(120, 1000) && len(seps) > 0 && len(closers) > 0; i++ {
+			a := seps[rnd.Intn(len(seps))]
+			b := closers[rnd.Intn(len(closers))]
+			if rnd.Chance(1, 2) {
+				// a closer not far behind the separator
+				j := sort.SearchInts(closers, a)
+				if j < len(closers) {
+					b = closers[min(j+rnd.Intn(6), len(closers)-1)]
+				}
+			}
+			if b <= a {
+				continue
+			}
+			ds = append(ds, dmg{pos: a, del: b - a})
+		}
+	}
 	for i := range ds {
 		if ds[i].x != 0 {
 			ds[i].data = flipped(f.spool, ds[i].pos, ds[i].x)
@@ -531,6 +567,14 @@ func replayRegressions(r *hx.Run, ts []target) {
 				}
 			}
 			for n := 0; n < 3; n++ {
+				// the <name> child of an object lost (a span deletion)
+				if i := bytes.Index(spool, []byte("_object id=")); i >= 0 {
+					if j := bytes.Index(spool[i:], []byte("<name>")); j >= 0 {
+						if k := bytes.Index(spool[i+j:], []byte("</name>")); k >= 0 {
+							ds = append(ds, dm{"object-without-name", deleted(spool, i+j, k+len("</name>"))})
+						}
+					}
+				}
 				if d := sub(spool, "<object object_ref", "=object object_ref", n); d != nil {
 					ds = append(ds, dm{fmt.Sprintf("test-without-object-%d", n), d})
 				}
